@@ -104,6 +104,34 @@ def fam_cycles(rng, tier):
     return out
 
 
+def fam_rehome(rng, count):
+    """C15: jobs that were scanned r times in one scheduler are moved into a fresh (nested)
+    scheduler, which is then scanned and queried; whatever a scan leaves on the jobs must
+    not survive the move"""
+    out = []
+    for idx in range(count):
+        k = rng.randint(2, 4)
+        graph = rng.choice(list(dags(k)))
+        # 1 top {jobs..., 2+k: empty nested scheduler B}
+        kinds = ["sched"] + ["job"] * k + ["sched"]
+        jobs = list(range(2, k + 2))
+        b = k + 2
+        # B starts outside the tree (a member of A would be scanned along with A)
+        mem = {1: jobs}
+        req = {2 + i: [2 + r for r in rs] for i, rs in graph.items()}
+        steps = [{"op": "scan", "s": 1} for _ in range(idx % 5)]
+        steps += [{"op": "scan", "s": b} for _ in range((idx // 5) % 3)]
+        for j in jobs:
+            steps.append({"op": "remove", "s": 1, "x": j})
+        steps.append({"op": "update", "s": b, "A": jobs})
+        if idx % 2:
+            steps.append({"op": "add", "s": 1, "x": b})
+        steps.append({"op": "query", "qs": b, "qA": [jobs[0]]})
+        steps.append({"op": "query", "qs": 1, "qA": [b] if idx % 2 else []})
+        out.append(hist(universe(kinds), mem, req, steps, perm(rng, k + 2)))
+    return out
+
+
 def fam_backforth(rng, count):
     """C15: graphs mutated back and forth between cyclic and acyclic"""
     out = []
@@ -149,9 +177,10 @@ def fam_sanitize(rng, tier):
         k2 = list(kinds)
         k2[0] = tops[idx % 2]
         which = rng.choice([1, 1, 1, 4])
-        steps = [{"op": "sanitize", "s": which, "qs": which, "qA": []},
-                 {"op": "sanitize", "s": which, "qs": 1, "qA": []},
-                 {"op": "sanitize", "s": 1}]
+        vb = idx % 3 == 0
+        steps = [{"op": "sanitize", "s": which, "qs": which, "qA": [], "f1": vb},
+                 {"op": "sanitize", "s": which, "qs": 1, "qA": [], "f1": vb},
+                 {"op": "sanitize", "s": 1, "f1": vb}]
         out.append(hist(universe(k2), mem, req, steps, perm(rng, 9)))
     return out
 
@@ -183,9 +212,10 @@ def fam_sanitize_siblings(rng, count):
             req[s] = [x for x in dict.fromkeys(req[s]) if x not in inner[s] and x != s]
         k2 = list(kinds)
         k2[0] = "sched" if idx % 2 else "pure"
-        steps = [{"op": "sanitize", "s": 1, "qs": 1, "qA": []},
-                 {"op": "sanitize", "s": 1},
-                 {"op": "sanitize", "s": rng.choice([3, 6, 9])}]
+        vb = rng.random() < 0.4
+        steps = [{"op": "sanitize", "s": 1, "qs": 1, "qA": [], "f1": vb},
+                 {"op": "sanitize", "s": 1, "f1": vb},
+                 {"op": "sanitize", "s": rng.choice([3, 6, 9]), "f1": vb}]
         h = hist(universe(k2), mem, req, steps, perm(rng, 12))
         if rng.random() < 0.5:
             # jobs of different schedulers are given the same requirement (also legitimate ones
@@ -355,6 +385,7 @@ def histories(prop, tier, seed):
     nrand = 400 if quick else 6000
     if prop == "C15":
         out = fam_cycles(rng, tier) + fam_backforth(rng, 300 if quick else 3000) + \
+            fam_rehome(rng, 150 if quick else 1500) + \
             fam_random(rng, nrand, ["requires", "requires", "requires", "remove", "add", "query"])
         desc = "all digraphs <= %d nodes at 3 nesting levels under both scheduler classes; " \
                "back-and-forth edge mutations; random histories" % (3 if quick else 4)
